@@ -22,7 +22,11 @@ func ValueLine(r *core.Rand) string {
 	for i := range w {
 		w[i] = valueWord(r)
 	}
-	return strings.Join(w, r.Pick([]string{" ", " ", "  ", "\t"}))
+	s := strings.Join(w, r.Pick([]string{" ", " ", "  ", "\t"}))
+	if s == "." { // a lone dot means "empty line" on a continuation line
+		s = ".."
+	}
+	return s
 }
 
 func blanks(r *core.Rand) string {
